@@ -141,12 +141,16 @@ def make_call(g, c):
     if on == "gfa":
         seg = pick(g.segments, i)
         lk = pick(g.dovetails, i)
+        # (the criteria of a search are objects of the caller: they are the same afterwards)
+        crit = [{"record_type": "S"}, {"name": arg}, {"record_type": "S", "name": arg}]
         f = {
             "str": lambda: str(g), "names": lambda: (g.names, g.segment_names, g.edge_names, g.path_names, g.set_names, g.gap_names),
             "lines": lambda: g.lines, "validate": g.validate, "line": lambda: g.line(arg),
             "segment": lambda: g.segment(arg), "try_get_line": lambda: g.try_get_line(arg),
-            "select": lambda: g.select({"record_type": "S"}) + g.select({"name": arg}) +
-            g.select({"record_type": ("X", "Y", "Zz", "LEN", "Q")[i % 5]}),
+            # (the criteria are objects of the caller: the same dictionaries are given again when the call is
+            # repeated, and are theirs afterwards as before)
+            "select": (lambda: g.select(crit[0]) + g.select(crit[1]) + g.select(crit[2]) +
+                       g.select({"record_type": ("X", "Y", "Zz", "LEN", "Q")[i % 5]})),
             "components": lambda: [sorted(s.name for s in cc) for cc in g.connected_components()],
             "segment_component": (lambda: sorted(s.name for s in g.segment_connected_component(seg))) if seg else None,
             "counts": lambda: (g.n_dovetails, g.n_containments, g.n_internals, g.n_dead_ends),
@@ -165,7 +169,7 @@ def make_call(g, c):
                                          for v in (g.header.get(t) for t in g.header.tagnames)
                                          if isinstance(v, gfapy.FieldArray) and len(list(v)) > 0],
         }.get(q)
-        return (f, []) if f else None
+        return (f, crit if q == "select" else []) if f else None
     if on == "line":
         l = pick(lines, i)
         if l is None:
